@@ -189,6 +189,7 @@ theorem pres_findImport (cfg : Cfg) (sb : Bool) {ev : Expr → M Out} (hev : ∀
     all_goals exact hev _
 
 theorem pres_callValue (cfg : Cfg) (hcc : cfg.callCheck = true) (hF : FrameOk R) (hI : InvokeOk R cfg)
+    (hct : (∀ t, cfg.ctorEffect t = false) ∨ ProtOk R)
     {ev : Expr → M Out} (hev : ∀ e, Pres R (ev e))
     {evArgs : List Expr → (List Value → M Out) → M Out}
     (hargs : ∀ es k, (∀ vs, Pres R (k vs)) → Pres R (evArgs es k))
@@ -209,7 +210,10 @@ theorem pres_callValue (cfg : Cfg) (hcc : cfg.callCheck = true) (hF : FrameOk R)
     simp only [hcc, Bool.and_self, if_true]
     exact pres_fail _
   case type_ t =>
-    apply hargs; intro vs; pres_node
+    apply hargs; intro vs
+    rcases hct with hct | hP
+    · simp only [hct t, Bool.false_eq_true, if_false]; pres_node
+    · pres_node
 
 theorem pres_loopWhile {ev : Expr → M Out} (hev : ∀ e, Pres R (ev e)) (c body : Expr) :
     ∀ n, Pres R (loopWhile ev c body n)
@@ -236,13 +240,13 @@ theorem pres_loopFor (hF : FrameOk R) {ev : Expr → M Out} (hev : ∀ e, Pres R
     changes and safe natives, and either every mutating node kind is guarded or `R` does not care about
     the protected state. -/
 theorem eval_pres (cfg : Cfg) (hcc : cfg.callCheck = true) (hF : FrameOk R) (hI : InvokeOk R cfg)
-    (hP : (∀ k, mutating k = true → cfg.guard k = true) ∨ ProtOk R) :
+    (hP : ((∀ k, mutating k = true → cfg.guard k = true) ∧ (∀ t, cfg.ctorEffect t = false)) ∨ ProtOk R) :
     ∀ (n : Nat) (e : Expr), Pres R (eval cfg true n e)
   | 0, _ => by unfold eval; exact pres_fail _
   | n + 1, e => by
     have ih : ∀ e, Pres R (eval cfg true n e) := eval_pres cfg hcc hF hI hP n
     unfold eval
-    rcases hP with hg | hP
+    rcases hP with ⟨hg, hct⟩ | hP
     · by_cases hm : mutating e.kind = true
       · -- guarded: the node throws before doing anything
         have : guardCheck cfg true e.kind = M.fail (.sandbox e.kind) := by simp [guardCheck, hg _ hm]
@@ -260,7 +264,7 @@ theorem eval_pres (cfg : Cfg) (hcc : cfg.callCheck = true) (hF : FrameOk R) (hI 
           | exact ih _
           | exact pres_evalSeq ih _ _
           | (apply pres_evalList ih; intro vs; pres_node)
-          | (exact pres_callValue cfg hcc hF hI ih (fun es k hk => pres_evalList ih es k hk) _ _ _)
+          | (exact pres_callValue cfg hcc hF hI (Or.inl hct) ih (fun es k hk => pres_evalList ih es k hk) _ _ _)
           | exact pres_loopWhile ih _ _ _
           | exact pres_loopFor hF ih _ _ _ _
           | exact pres_findImport cfg true ih _ _
@@ -275,7 +279,7 @@ theorem eval_pres (cfg : Cfg) (hcc : cfg.callCheck = true) (hF : FrameOk R) (hI 
         | exact ih _
         | exact pres_evalSeq ih _ _
         | (apply pres_evalList ih; intro vs; pres_node)
-        | (exact pres_callValue cfg hcc hF hI ih (fun es k hk => pres_evalList ih es k hk) _ _ _)
+        | (exact pres_callValue cfg hcc hF hI (Or.inr hP) ih (fun es k hk => pres_evalList ih es k hk) _ _ _)
         | exact pres_loopWhile ih _ _ _
         | exact pres_loopFor hF ih _ _ _ _
         | exact pres_findImport cfg true ih _ _
